@@ -43,6 +43,23 @@ def main():
                 out["patchsets"].append({"ok": False, "exc": type(e).__name__})
     finally:
         open(pf, "w").write(orig)
+    # generated macro header files through cleanup_macros (the three files of the scratch copy are overwritten and restored)
+    if job.get("cleansets"):
+        paths = {"inc": Conf.get_path(InputFile.HEXAGON_PP_MACROS_INC), "h": Conf.get_path(InputFile.HEXAGON_PP_MACROS_H),
+                 "mmvec": Conf.get_path(InputFile.HEXAGON_PP_MACROS_MMVEC_H)}
+        saved = {k: open(v).read() for k, v in paths.items()}
+        out["cleansets"] = []
+        try:
+            for cs in job["cleansets"]:
+                for k, v in paths.items():
+                    open(v, "w").write(cs[k])
+                try:
+                    out["cleansets"].append({"ok": True, "res": p.cleanup_macros()})
+                except Exception as e:
+                    out["cleansets"].append({"ok": False, "exc": "%s: %s" % (type(e).__name__, str(e)[:100])})
+        finally:
+            for k, v in paths.items():
+                open(v, "w").write(saved[k])
     if job.get("regenerate"):
         try:
             extra = job.get("extra_shortcode", [])
